@@ -236,14 +236,16 @@ def with_array_forms(shards, tier, pick):
     quick - a read-only strided view, and plain Python lists (for the kinds whose dtype the constructor infers from a
     list), and frames / vectors that are the product of a concatenation; thorough - also a plain read-only array, a
     negative-stride view, and the products of a fancy-indexed selection, a deep copy and an Arrow round trip."""
-    forms = (["strided", "pylist", "npstring", "viarbind"] if tier == "quick" else
-             ["strided", "pylist", "npstring", "readonly", "reversed", "viarbind", "viaslice", "viadeepcopy", "viaarrow"])
+    forms = (["strided", "pylist", "npstring", "viarbind", "swapped"] if tier == "quick" else
+             ["strided", "pylist", "npstring", "readonly", "reversed", "viarbind", "viaslice", "viadeepcopy", "viaarrow", "swapped"])
     extra = []
     for sh in shards:
         if "__env__" not in sh and pick(sh):
             for form in forms:
                 if form == "npstring" and "str" not in json.dumps(sh):
                     continue   # (only shards that hold string columns)
+                if form == "swapped" and sh.get("kind") not in ("D", "us", "ns", "td", "i8", "f8", "i4", "f4"):
+                    continue   # (the other byte order: only kinds with more than one byte per element)
                 extra.append(dict(sh, __env__={"MC_ARRAY_FORM": form}))
     return shards + extra
 
